@@ -33,9 +33,10 @@ type Clause struct {
 }
 
 type LoopSpec struct {
-	Invs   []Clause
-	Dec    *Clause
-	Splits []Clause
+	Invs      []Clause
+	Dec       *Clause
+	Splits    []Clause
+	SplitVars []Clause // case split on the skolemised bound variable of quantified invariants (inv-keep)
 }
 
 type Contract struct {
@@ -322,7 +323,7 @@ func (e *Engine) scanGlobals() {
 var clauseKeywords = map[string]bool{"func": true, "theorem": true, "global": true, "props": true, "requires": true,
 	"ensures": true, "panics": true, "modifies": true, "decreases": true, "yields": true, "loop": true, "invariant": true,
 	"let": true, "split": true, "mode": true, "established-by": true, "thin": true, "trusted": true, "assert": true,
-	"ensures-notrace": true, "modifies-heap": true, "witness": true, "callback": true, "readonly-heap": true, "fresh-result": true, "pure": true}
+	"ensures-notrace": true, "modifies-heap": true, "witness": true, "callback": true, "readonly-heap": true, "fresh-result": true, "pure": true, "splitvar": true}
 
 type rawClause struct {
 	kw   string
@@ -490,7 +491,7 @@ func (e *Engine) loadContracts() error {
 						fmt.Sscanf(rc.text, "%d", &k)
 						curLoop = &LoopSpec{}
 						cur.Loops[k] = curLoop
-					case "requires", "ensures", "ensures-notrace", "panics", "invariant", "decreases", "split":
+					case "requires", "ensures", "ensures-notrace", "panics", "invariant", "decreases", "split", "splitvar":
 						props, text := parseProps(rc.text)
 						ex, err := parseSpec(text)
 						if err != nil {
@@ -522,6 +523,10 @@ func (e *Engine) loadContracts() error {
 						case "split":
 							if curLoop != nil {
 								curLoop.Splits = append(curLoop.Splits, cl)
+							}
+						case "splitvar":
+							if curLoop != nil {
+								curLoop.SplitVars = append(curLoop.SplitVars, cl)
 							}
 						}
 					}
